@@ -54,7 +54,12 @@ Next == /\ doc.name[1] = HsNTextarea /\ Len(doc.parent) < 3
 Cx1(c) == [cs |-> <<c>>, cb |-> <<>>]
 Kinds == <<"checked", "default", "indeterminate", "enabled", "disabled", "required", "optional", "read-write",
            "read-only", "placeholder-shown", "link", "any-link", "defined">>
-Pool == [n \in 1..Len(Kinds) |-> Cx1(<<HsK(Kinds[n])>>)] \o << Cx1(<<HsDirS("ltr")>>), Cx1(<<HsDirS("rtl")>>) >>
+\* (*:dir(x) carries the coarser reading of :dir(), see MC_C17_dir)
+TypeS(n) == [k |-> "type", ns |-> Bare, name |-> n]
+DirAlt(x) == [k |-> "dir", d |-> x, alt |-> TRUE]
+Pool == [n \in 1..Len(Kinds) |-> Cx1(<<HsK(Kinds[n])>>)] \o
+        << Cx1(<<HsDirS("ltr")>>), Cx1(<<HsDirS("rtl")>>),
+           Cx1(<<TypeS(Star), DirAlt("ltr")>>), Cx1(<<TypeS(Star), DirAlt("rtl")>>) >>
 ASSUME PrintT(ToJson([pool |-> [s \in 1..Len(Pool) |-> <<Pool[s]>>]]))
 
 Env == [nsmap |-> <<>>, scope |-> RootOf(doc)]
